@@ -1,5 +1,5 @@
 """C05 / C11 (and the dispatcher part of C01): the request tree."""
-from pyvc.contracts import contract, spec, inline, ufun
+from pyvc.contracts import contract, spec, inline, ufun, attr_types
 
 C = "src/primaite/simulator/core.py"
 
@@ -20,6 +20,9 @@ spec("resolve_def(rm, request, context)", """
             if isinstance(rm.request_types[request[0]].func, RequestManager) else 2)))
 """)
 
+# RequestManager.request_types is annotated Dict[str, RequestType], but the node's interface manager is keyed by interface NUMBERS
+# (Node.connect_nic: self._nic_request_manager.add_request(new_nic_num, ...)): the keys are typed as what the code really stores
+attr_types({"RequestManager.request_types": "Dict[Any, RequestType]"})
 contract(f"{C}::RequestPermissionValidator.__call__", verify=False,
          note="abstract method: base contract assumed here; every concrete validator is proved pure below",
          ensures=["result == validator_ok(self, seq(request), seq(context), epoch())"], modifies=[])
